@@ -322,9 +322,12 @@ def run_check(pid, tier, seed):
         import frames
         fr = frames.run(pid, plan["frames"])
         coverage["frames"] = fr["rows"]
+        hard_frame_failure = any((not r["ok"]) and not r.get("undecided") and r["name"] not in SOFT_FRAMES for r in fr["rows"])
         for row in fr["rows"]:
             units.append(("frame:" + row["name"], row["ok"]))
             if row.get("undecided"):
+                if hard_frame_failure:
+                    continue    # another frame of this property fails outright: that is reported, the open question is not
                 return finish_undecided_or_replay(pid, tier, seed, t0, "frame %s: %s" % (row["name"], row["undecided"]), plan)
             if not row["ok"]:
                 failures_mine.append({"message": "frame condition failed: " + row["detail"], "labels": [row["name"]], "label_props": {},
